@@ -477,4 +477,7 @@ void run_C03(void) {
     static const char* const RNAMES[] = {"q120_ntt_bb_avx2", "q120_intt_bb_avx2", "vec_znx_dft@ntt120", "vec_znx_idft@ntt120", "vec_znx_idft_tmp_a@ntt120"};
     for (size_t i = 0; i < 4; i++) ops_recontent_case("C03 entry points", RNAMES, (int)ARRAY_LEN(RNAMES), CNS[i], DISP_NATIVE, 6, (unsigned)i, "same_buffers_other_data_calls");
   }
+  // several threads creating, using and destroying their own modules / tables at the same time
+  for (unsigned rep = 0; rep < (G.thorough ? 60u : 8u); rep++)
+    ops_concurrent_lifecycle_case("C03 objects", LKM_MOD_NTT120 | LKM_MOD_FFT64 | LKM_NTT | LKM_INTT, (rep % 4) == 3 ? DISP_GENERIC : DISP_NATIVE, rep & 1 ? 8 : 4, 120, rep, "concurrent_lifecycle_uses");
 }
